@@ -231,6 +231,22 @@ theorem C14_arms_translation_eq_protocol {d : GameRow} (hd : d ∈ gameDefs) {ga
   funext w
   exact C14_dispatch_generic_eq_protocol hd hg ext port timeout extra w
 
+/-- DESTINATION (C11), from the translation: for every row of the definitions table, every script, fault vector, timeout
+and extra settings, every socket the translated arm's call opens and every datagram / stream write it sends goes to the
+caller's port, or to the ROW's default port when none is given — every arm, every probe of the auto-detecting Minecraft
+arm included (it passes one address on). -/
+theorem C14_arms_destination_port {d : GameRow} (hd : d ∈ gameDefs) {game : Game} (hg : Game.ofRow d = some game)
+    (ext : Ext) (heco : EcoSafeFor ext game.protocol) (port : Option Nat) (timeout : Option Settings.Timeout)
+    (extra : Option Extra) (script : List ConnScript) (faults : List Bool) :
+    ∃ q, translated ext game port timeout extra = some q ∧
+      ∀ e ∈ (q (Net.init script faults)).2.log,
+        match e with
+        | .opened _ _ p _ => p = port.getD d.port
+        | .send _ p _ _ => p = port.getD d.port
+        | .recv _ _ _ => True :=
+  ⟨_, C14_arms_translation_eq_generic ext game port timeout extra,
+    C14_dispatch_destination_port hd hg ext heco port timeout extra script faults⟩
+
 /-- EXTRA SETTINGS, Valve arm: when the caller gives extra settings, what reaches `valve::query` is built from THEM field by
 field (players, rules, the app-id check; the protocol's default `Try` / `Try` / `true` for a field left unset) — the
 definition's own settings play no part; when the caller gives none, from the DEFINITION's request settings. -/
@@ -331,3 +347,17 @@ example (ext : Ext) :
 example : C14_arms_readsExtra (.quake .three) = false := rfl
 example : (genericCall ⟨25565, .proprietary (.minecraft none), valveIntoExtra Valve.Gather.default⟩ none none
     (some ⟨some [0x6D, 0x63], some 47, none, none, none⟩)).portArg = .inl 25565 := rfl
+
+-- the auto-detecting Minecraft definition, port omitted, 3 retries: whatever the servers do, every probe of the translated
+-- arm's call goes to the row's 25565
+example (ext : Ext) (script : List ConnScript) (faults : List Bool) :
+    ∃ q, translated ext ⟨25565, .proprietary (.minecraft none), valveIntoExtra Valve.Gather.default⟩ none
+        (some ⟨none, none, none, 3⟩) none = some q ∧
+      ∀ e ∈ (q (Net.init script faults)).2.log,
+        match e with
+        | .opened _ _ p _ => p = 25565
+        | .send _ p _ _ => p = 25565
+        | .recv _ _ _ => True :=
+  C14_arms_destination_port
+    (d := ⟨"minecraft", "Minecraft", 25565, "prop:Minecraft(None)", "-", "-", true, 25565, false, .minecraft .auto⟩)
+    (by decide) (by decide) ext (fun h => by cases h) none _ none script faults
